@@ -1307,7 +1307,22 @@ pub fn structured_points(ctx: &Arc<Ctx>) {
     let by_w = crate::sqrtclass::encode_points_by_w(&dc);
     ctx.report.set("structured_points_by_intermediate_w", json!(by_w.len()));
     pts.extend(by_w);
+    let by_i = crate::sqrtclass::points_by_intermediate(&dc);
+    ctx.report.set("structured_points_by_intermediate_x_y_u1_T", json!(by_i.len()));
+    pts.extend(by_i.into_iter().map(|(p, _)| (p, 0u64)));
     let c01 = ctx.prop == "C01";
+    if ctx.prop == "C08" {
+        let idx: Vec<usize> = (0..pts.len()).collect();
+        run_cases(
+            ctx, "E3/points", false,
+            idx.par_iter(),
+            |&&pi| eval_point_c08(&dc, &pts[pi].0),
+            |&&pi| ("structured-point".into(), json!({"x": pts[pi].0.x.to_string(), "y": pts[pi].0.y.to_string(), "rep": 0, "two_primary_log": 0})),
+        );
+        ctx.report.set("structured_points", json!({"points": pts.len(), "representatives_each": 4}));
+        ctx.report.rule(format!("E3/points[{BUILD}]: {} valid curve points solved for structured intermediates; all pairs of 4 representatives (and their affine forms) must be ==, hash equally and encode equally", pts.len()));
+        return;
+    }
     let work: Vec<(usize, usize)> = (0..pts.len() * 4).map(|i| (i / 4, i % 4)).collect();
     run_cases(
         ctx, "E3/points", false,
@@ -1350,9 +1365,46 @@ pub fn eval_point(dc: &Decaf, p: &Pt, rep: usize, c01: bool, e: u64) -> Outcome 
 pub fn replay_point(case: &Value, prop: &str) -> (bool, Value) {
     let dc = Decaf::new();
     let p = Pt { x: case["x"].as_str().unwrap_or("0").parse().unwrap_or_default(), y: case["y"].as_str().unwrap_or("0").parse().unwrap_or_default() };
-    let o = eval_point(&dc, &p, case["rep"].as_u64().unwrap_or(0) as usize, prop == "C01", case["two_primary_log"].as_u64().unwrap_or(0));
+    let o = if prop == "C08" { eval_point_c08(&dc, &p) } else { eval_point(&dc, &p, case["rep"].as_u64().unwrap_or(0) as usize, prop == "C01", case["two_primary_log"].as_u64().unwrap_or(0)) };
     match o.viol {
         Some(v) => (false, json!({"expected": v.expected, "got": v.got})),
         None => (true, json!({"class": o.class})),
     }
+}
+
+/// C08 on a structured point: its four representatives are pairwise equal, hash equally (both
+/// types), encode equally; none is the identity
+pub fn eval_point_c08(dc: &Decaf, p: &Pt) -> Outcome {
+    let f = dc.f();
+    let one = BigUint::one();
+    let scaled = |q: &Pt, lam: &BigUint| el_from_big(&f.mul(&q.x, lam), &f.mul(&q.y, lam), &f.red(lam), &f.mul(&f.mul(&q.x, &q.y), lam));
+    let tw = dc.c.other_rep(p);
+    let reps = [scaled(p, &one), scaled(&tw, &one), scaled(p, &u(3)), scaled(&tw, &f.neg(&one))];
+    let class = "point/eq-hash".to_string();
+    let case = json!({"x": p.x.to_string(), "y": p.y.to_string(), "rep": 0, "two_primary_log": 0});
+    let bad = |what: &str| Outcome::bad("point/eq-hash", Viol { key: format!("C08|structured-point|{what}"), engine: "E3/points".into(), case: case.clone(), expected: "all representatives of one element: ==, equal hashes, equal encodings; not the identity".into(), got: what.to_string() });
+    let enc0 = reps[0].vartime_compress().0;
+    for a in &reps {
+        let is_id = p.x.is_zero();
+        if a.is_identity() != is_id || (*a == Element::IDENTITY) != is_id || (Element::IDENTITY == *a) != is_id {
+            return bad("identity predicates disagree with the element");
+        }
+        for b in &reps {
+            if !(a == b) || a.vartime_compress().0 != enc0 {
+                return bad("Element == / encoding");
+            }
+            #[cfg(feature = "ark")]
+            {
+                use ark_ec::CurveGroup;
+                if h64(a) != h64(b) {
+                    return bad("Element Hash");
+                }
+                let (aa, ab): (Affine, Affine) = (a.into_affine(), b.into_affine());
+                if !(aa == ab) || h64(&aa) != h64(&ab) {
+                    return bad("AffinePoint == / Hash");
+                }
+            }
+        }
+    }
+    Outcome::ok(class)
 }
